@@ -84,6 +84,13 @@ def check_ir(ir, renderings, rec=None, poison=None):
             "denotation", f"{canon!r} parsed to {actual!r}, expected {expected!r}"
         )
     n = 1
+    # the focused elements, inspected the way the test-suite does (indexing the tag table), then
+    # the selector's own answer: read-only inspections, in this order
+    marked = obj0.all_tags[1]
+    if bool(marked) != (G.count_focus(ir) >= 1) or bool(obj0.focus) != (G.count_focus(ir) >= 1):
+        raise PropertyViolation(
+            "focus", f"{canon!r} marks {G.count_focus(ir)} focus variable(s) but all_tags[1] holds {len(marked)} "
+                     f"element(s) and .focus is {obj0.focus!r}")
     fc = G.focus_cap(ir) if G.count_focus(ir) == 1 else None
     if G.count_focus(ir) <= 1:
         m = obj0.main
